@@ -55,7 +55,32 @@ pub fn run_dbg(args: &[u64]) -> Vec<Vec<u64>> {
     let inp: Vec<u8> = c.take(ninp).iter().map(|b| *b as u8).collect();
     let ntext = c.next() as usize;
     let script: String = c.take(ntext).iter().map(|x| char::from_u32(*x as u32).unwrap_or('\u{FFFD}')).collect();
+    run_session(feat, fuel, src, inp, ninp, Some(script))
+}
 
+/// `DBGT feat fuel nsrc src* ninp inp* has_arg narg arg* nstdin stdin*`: the script as text, in the
+/// `--command` argument and/or at the front of the console input stream.
+pub fn run_dbgt(args: &[u64]) -> Vec<Vec<u64>> {
+    let mut c = Cur::new(args);
+    let feat = c.next() != 0;
+    let fuel = c.next();
+    let nsrc = c.next() as usize;
+    let src: String = c.take(nsrc).iter().map(|x| char::from_u32(*x as u32).unwrap_or('\u{FFFD}')).collect();
+    let ninp = c.next() as usize;
+    let inp: Vec<u8> = c.take(ninp).iter().map(|b| *b as u8).collect();
+    let has_arg = c.next() != 0;
+    let narg = c.next() as usize;
+    let arg: String = c.take(narg).iter().map(|x| char::from_u32(*x as u32).unwrap_or('\u{FFFD}')).collect();
+    let nstdin = c.next() as usize;
+    let stdin: String = c.take(nstdin).iter().map(|x| char::from_u32(*x as u32).unwrap_or('\u{FFFD}')).collect();
+    let mut queue = stdin.into_bytes();
+    queue.extend_from_slice(&inp);
+    run_session(feat, fuel, src, queue, ninp, if has_arg { Some(arg) } else { None })
+}
+
+/// `inp`: the console input stream (shared by the debugger's stdin reader and the program);
+/// `ninp`: how many of its trailing bytes are meant for the program (reported input left is capped by it).
+fn run_session(feat: bool, fuel: u64, src: String, inp: Vec<u8>, ninp: usize, command: Option<String>) -> Vec<Vec<u64>> {
     set_features(feat);
     lace::reset_state();
     lace::set_minimal(true);
@@ -70,7 +95,7 @@ pub fn run_dbg(args: &[u64]) -> Vec<Vec<u64>> {
             let parser = lace::AsmParser::new(text)?;
             let mut air = parser.parse()?;
             air.backpatch()?;
-            RunEnvironment::try_from(air, Some(lace::debugger::Options { command: Some(script.clone()) }))
+            RunEnvironment::try_from(air, Some(lace::debugger::Options { command: command.clone() }))
         })();
         if let Ok(env) = built {
             env_slot = Some(env);
@@ -84,7 +109,7 @@ pub fn run_dbg(args: &[u64]) -> Vec<Vec<u64>> {
     let (kind, code) = guarded(|| env.run());
     let out = lace::verif::take_out();
     let err = lace::verif::take_err();
-    let left = ninp as u64 - lace::verif::consumed();
+    let left = (inp.len() as u64 - lace::verif::consumed()).min(ninp as u64);
     let (ticks, execs, cmds) = (lace::verif::ticks(), lace::verif::fetches(), lace::verif::commands());
     lace::verif::disarm();
     let attached = env.verif_has_debugger();
